@@ -597,9 +597,17 @@ func startWorker(check, tier string, w int) (*workerProc, error) {
 }
 
 func (p *workerProc) stop() {
+	// closing stdin lets the worker return from main (a coverage build writes its counters
+	// then); it is killed only if it does not leave
 	p.in.Close()
-	p.cmd.Process.Kill()
-	p.cmd.Wait()
+	done := make(chan struct{})
+	go func() { p.cmd.Wait(); close(done) }()
+	select {
+	case <-done:
+	case <-time.After(5 * time.Second):
+		p.cmd.Process.Kill()
+		<-done
+	}
 	os.Remove(p.progF)
 }
 
